@@ -24,7 +24,7 @@ META = dict(
          "every case is replayed on the real function (verif export) where the same three facts - no negative payout, "
          "attributed sum <= reward, change >= 0 - are evaluated exactly on the returned map and change, and payee amounts "
          "are compared with the spec; seeded random rounds of mainnet size are checked for the three facts.",
-    note="Bounded: <= 2 CRC, <= 2-3 DPoS arbiters, <= 2 candidates, votes in {0,1,5}(+2 thorough) for the enumerated table; "
+    note="Bounded: <= 1 (2 thorough) CRC, <= 2 (3) DPoS arbiters, <= 1 (2) candidates, votes in {0,1,5} (+2) for the enumerated table; "
          "random rounds cover sizes/magnitudes but only against the three facts. The float64 arithmetic of the code is "
          "compared with exact arithmetic up to 1 sela per share. Observation outside the property: rules V2/V3 enter "
          "the block-confirm reward of missing arbiters in the map without deducting it from the change.",
@@ -64,7 +64,7 @@ def run(chk):
     thorough = chk.tier == "thorough"
     vf._copy_spec(os.path.join(vf.SPEC, "Consensus"))
     if thorough:
-        big = dict(rewards=(0, 3, 100, 100000001), crc=2, dpos=2, cand=2, ccrc=(0, 1, 2), cnorm=(1, 2), mod=3)
+        big = dict(rewards=(0, 3, 100, 100000001), crc=2, dpos=2, cand=2, ccrc=(0, 2), cnorm=(1, 2), mod=3)
         runs = [("era %d" % e, cfg([e], **big)) for e in (0, 1, 2)]
         runs += [("era 3 DPOS", cfg([3], pows=("FALSE",), **big)), ("era 3 POW (everything destroyed)", cfg([3], pows=("TRUE",), rewards=(0, 1, 100000001), crc=1, dpos=2, cand=1,
                                                         ccrc=(0, 1, 2), cnorm=(1, 2))),
